@@ -67,11 +67,11 @@ impl<'i> Span<'i> {
     pub fn get(&self, range: impl RangeBounds<usize>) -> Option<Span<'i>> {
         let start = match range.start_bound() {
             Bound::Included(offset) => *offset,
-            Bound::Excluded(offset) => *offset + 1,
+            Bound::Excluded(offset) => offset.checked_add(1)?,
             Bound::Unbounded => 0,
         };
         let end = match range.end_bound() {
-            Bound::Included(offset) => *offset + 1,
+            Bound::Included(offset) => offset.checked_add(1)?,
             Bound::Excluded(offset) => *offset,
             Bound::Unbounded => self.as_str().len(),
         };
